@@ -3,12 +3,12 @@
 # check of its property against it at each seed; prints one line per (mutant, seed). Never touches /repo's tree.
 seeds=${@:-1}
 mkdir -p /tmp/seed
-for d in ${MUTANTS:-/verif/seeded/*/}; do d=/verif/seeded/$(basename $d)/
+for d in ${MUTANTS:-${VERIF_HOME:-/verif}/seeded/*/}; do d=${VERIF_HOME:-/verif}/seeded/$(basename $d)/
   m=$(basename $d); prop=${m%%-*}; [ "$m" = retired ] && continue
-  c=$(bash /verif/tools/confirm_mutant.sh $m 2>&1 | tail -1)
+  c=$(bash ${VERIF_HOME:-/verif}/tools/confirm_mutant.sh $m 2>&1 | tail -1)
   echo "CONFIRM $c"
   for s in $seeds; do
-    out=$(VERIF_SEED=$s bash /verif/tools/trymutant.sh $d $prop 2>&1)
+    out=$(VERIF_SEED=$s bash ${VERIF_HOME:-/verif}/tools/trymutant.sh $d $prop 2>&1)
     if echo "$out" | grep -q VIOLATION; then echo "CAUGHT $m seed=$s $(echo "$out" | grep -c VIOLATION) violation line(s)"; else echo "MISSED $m seed=$s :: $(echo "$out" | tail -2 | tr '\n' ' ')"; fi
   done
 done
